@@ -387,3 +387,45 @@ def replay_recorded(path, module, strip=lambda c: c):
     rec = verdicts[case["id"]]
     print("replay %s: property=%s recorded clause=%s verdict now=%s ctx=%s" % (path, rp["property"], rp["clause"], rec["v"], rec.get("ctx")))
     return 0 if rec["v"][0] in ("ok", "inconclusive") else 1
+
+# ---------------------------------------------------------------------------------------
+# documented constructor defaults (from the class docstrings).  A keyword argument whose value equals the documented
+# default is omitted in about half of the constructions, so that the defaults themselves are part of what is checked
+# (the specifications are written in terms of the documented values).
+_SEL = dict(initialize=0, n_to_select=None, score_threshold=None, score_threshold_type="absolute", progress_bar=False, full=False, random_state=0)
+_CUR = dict(recompute_every=1, k=1, tolerance=1e-12, n_to_select=None, score_threshold=None, score_threshold_type="absolute", progress_bar=False, full=False, random_state=0)
+DOC_DEFAULTS = {
+    "FPS": _SEL, "PCovFPS": dict(_SEL, mixing=0.5), "CUR": _CUR, "PCovCUR": dict(_CUR, mixing=0.5),
+    "VoronoiFPS": dict(_SEL, n_trial_calculation=4, full_fraction=None),
+    "PCovR": dict(mixing=0.5, n_components=None, svd_solver="auto", tol=1e-12, space="auto", regressor=None, iterated_power="auto", random_state=None),
+    "KernelPCovR": dict(mixing=0.5, n_components=None, svd_solver="auto", regressor=None, kernel="linear", gamma=None, degree=3, coef0=1, kernel_params=None,
+                        center=False, fit_inverse_transform=False, tol=1e-12, n_jobs=None, iterated_power="auto", random_state=None),
+    "OrthogonalRegression": dict(use_orthogonal_projector=True, linear_estimator=None),
+    "Ridge2FoldCV": dict(alpha_type="absolute", regularization_method="tikhonov", cv=None, scoring=None, random_state=None, shuffle=True, n_jobs=None),
+    "StandardFlexibleScaler": dict(with_mean=True, with_std=True, column_wise=False, rtol=0, atol=1e-12),
+    "KernelNormalizer": dict(with_center=True, with_trace=True),
+    "SparseKernelCenterer": dict(with_center=True, with_trace=True, rcond=1e-12),
+    "SparseKDE": dict(fspread=-1.0, fpoints=0.15, metric_params=None),
+    "QuickShift": dict(scale=1.0, metric_params=None),
+    "DirectionalConvexHull": dict(tolerance=1e-12),
+}
+
+
+def reduce_kwargs(cls, kw):
+    """Drop (deterministically, as a function of the arguments and VERIF_SEED) about half of the keyword arguments that
+    equal the documented default of `cls`."""
+    import random
+    doc = DOC_DEFAULTS.get(getattr(cls, "__name__", str(cls)), {})
+    r = random.Random("%s|%r|%d" % (getattr(cls, "__name__", ""), sorted((k, repr(v)) for k, v in kw.items()), seed()))
+    out = {}
+    for k in kw:
+        v = kw[k]
+        same = k in doc and type(v) is type(doc[k]) and (v is doc[k] if doc[k] is None else v == doc[k])
+        if same and r.random() < 0.5:
+            continue
+        out[k] = v
+    return out
+
+
+def mk(cls, **kw):
+    return cls(**reduce_kwargs(cls, kw))
